@@ -1,0 +1,35 @@
+//go:build verif
+
+package core
+
+import (
+	"sync/atomic"
+	"time"
+)
+
+// VerifSetPersistInterval changes the period of the background persist timer
+// (process-wide). Verification harnesses raise it so that the write cache is
+// flushed only where they ask for it.
+func VerifSetPersistInterval(d time.Duration) {
+	persistInterval = d
+}
+
+// VerifPersist performs exactly what the timer branch of Run does: one flush
+// of the write cache followed by the GC attempt (when configured).
+func (bc *Blockchain) VerifPersist() error {
+	var oldPersisted uint32
+
+	if bc.config.RemoveUntraceableBlocks {
+		oldPersisted = atomic.LoadUint32(&bc.persistedHeight)
+	}
+	_, err := bc.persist()
+	if bc.config.RemoveUntraceableBlocks {
+		bc.tryRunGC(oldPersisted)
+	}
+	return err
+}
+
+// VerifPersistedHeight returns the height of the last flushed block.
+func (bc *Blockchain) VerifPersistedHeight() uint32 {
+	return atomic.LoadUint32(&bc.persistedHeight)
+}
